@@ -6,6 +6,7 @@ import (
 	"hash/fnv"
 	"os"
 	"regexp"
+	"runtime/debug"
 	"sync"
 	"time"
 )
@@ -24,6 +25,9 @@ var OrigEnv []string
 
 func init() {
 	OrigEnv = os.Environ()
+	// recursion whose depth grows with the input shows as a stack overflow on inputs of a few MiB
+	// instead of a few GiB (the library's own recursion is a handful of frames deep)
+	debug.SetMaxStack(48 << 20)
 	// a named local time zone with a non-zero offset: results that silently depend on
 	// time.Local differ from the reference
 	time.Local = time.FixedZone("EST", -5*3600)
